@@ -133,8 +133,12 @@ class Runner(object):
             elif k == "dlv":
                 if action[1] < len(sim.wires):
                     steps = sim.a_deliver(sim.wires[action[1]], action[2], action[3], action[4], action[5])
+            elif k == "frag":
+                if action[1] < len(sim.wires):
+                    steps = sim.a_deliver(sim.wires[action[1]], action[2], 1, False, action[4], nbytes=action[3])
             elif k == "send":
-                steps = sim.a_send(action[1], action[2], action[3], action[4], action[5])
+                steps = sim.a_send(action[1], action[2], action[3], action[4], action[5],
+                                   size=action[6] if len(action) > 6 else 0)
             elif k == "add":
                 steps = sim.a_add(action[1], action[2])
             elif k == "drop":
@@ -271,7 +275,12 @@ def run_actions(runner, actions):
     sim = runner.sim
     for act in actions:
         k = act[0]
-        if k == "dlv*":
+        if k == "frag*":
+            d, a = act[1], act[2]
+            ws = [i for i, w in enumerate(sim.wires) if w.ends[0].owner == d and w.ends[0].dest[1] == sim.port(a)]
+            if ws:
+                runner.apply(["frag", ws[-1], act[3], act[4], False])
+        elif k == "dlv*":
             d, a = act[1], act[2]
             ws = [i for i, w in enumerate(sim.wires) if w.ends[0].owner == d and w.ends[0].dest[1] == sim.port(a)]
             if ws:
@@ -406,6 +415,24 @@ def directed():
     S.append(("blackhole-one-way-silence", base, up + [x for r in range(20) for x in
                                                       (["adv", 256], ["send", 1, ["tcp", 0], 300 + r, False, False],
                                                        ["dlv*", 1, 0, 0, 99])] + [["heal"]]))
+    # slow link: one message of several receive buffers arrives in fragments spaced by connectionTimeout/4, the whole
+    # transfer takes ~3 timeouts; small messages keep flowing the other way. Towards the acceptor and towards the dialler.
+    for nm, snd, side in (("to-acceptor", 1, 0), ("to-dialler", 0, 1)):
+        oth = 1 - snd
+        sl = [["send", snd, ["tcp", oth], 50, False, False, 4000]]
+        for r in range(12):
+            sl += [["adv", 1024], ["frag*", 1, 0, side, 400], ["send", oth, ["tcp", snd], 60 + r, False, False],
+                   ["dlv*", 1, 0, 1 - side, 99], ["tick", 0, []], ["tick", 1, []]]
+        sl += [["dlv*", 1, 0, side, 99], ["send", snd, ["tcp", oth], 51, False, False], ["dlv*", 1, 0, side, 99], ["heal"]]
+        S.append(("slow-link-" + nm, base, up + sl))
+    # send() between the dial and the moment the connect is reported (SyncObj sends to every node whatever its state):
+    # nothing may be written ahead of the own address
+    S.append(("send-while-connecting", base,
+              [["tick", 0, []], ["tick", 1, []], ["send", 1, ["tcp", 0], 70, False, False], ["adv", 100],
+               ["send", 1, ["tcp", 0], 71, False, False], ["syn_ok*", 1, 0], ["send", 1, ["tcp", 0], 72, False, False],
+               ["accept", 0], ["cev*", 1, 0, False, False], ["dlv*", 1, 0, 0, 99],
+               ["send", 1, ["tcp", 0], 73, False, False], ["dlv*", 1, 0, 0, 99], ["send", 0, ["tcp", 1], 74, False, False],
+               ["dlv*", 1, 0, 1, 99], ["heal"]]))
     # the accepted socket of a redial gets the descriptor number of the closed, still registered object (lowest free
     # number): the D52 path calls disconnect() on that old object, which must not touch the new subscription
     for fds in ("lowest", "monotone"):
@@ -430,7 +457,7 @@ def directed():
     return S
 
 
-KINDS = [("adv", 12), ("tick", 14), ("syn_ok", 10), ("syn_err", 3), ("accept", 10), ("cev", 10), ("dlv", 22),
+KINDS = [("adv", 12), ("tick", 14), ("syn_ok", 10), ("syn_err", 3), ("accept", 10), ("cev", 10), ("dlv", 22), ("frag", 5),
          ("send", 10), ("err", 4), ("idle", 4), ("add", 2), ("drop", 2), ("sconn", 1.5), ("ssend", 4), ("restart", 1)]
 
 
@@ -471,12 +498,19 @@ def random_schedule(rng, runner, length):
             if c:
                 wi, side = rng.choice(c)
                 act = ["dlv", wi, side, rng.choice([1, 1, 2, 3, 99]), rng.random() < 0.3, rng.random() < 0.1]
+        elif k == "frag":
+            c = [(wi, side) for wi, w in enumerate(sim.wires) for side in (0, 1)
+                 if w.inflight[side] and isinstance(w.inflight[side][0], bytes) and len(w.inflight[side][0]) > 8]
+            if c:
+                wi, side = rng.choice(c)
+                act = ["frag", wi, side, rng.randrange(1, len(sim.wires[wi].inflight[side][0])), rng.random() < 0.1]
         elif k == "send":
             i = rng.randrange(n)
             t = sim.transports[i]
             keys = [sim.key(nd) for nd in t._connections] + [["tcp", j] for j in range(n) if j != i]
             key = rng.choice(sorted(keys, key=repr))
-            act = ["send", i, key, rng.randrange(1000), rng.random() < 0.05, rng.random() < 0.1]
+            act = ["send", i, key, rng.randrange(1000), rng.random() < 0.05, rng.random() < 0.1,
+                   rng.choice([0, 0, 0, 0, 0, 1500, 3000])]
         elif k == "err":
             c = [s for s in sim.fabric.socks.values() if s.kind == "established" and sim.owner_live(s) and not s.closed
                  and s not in sim.strangers and sim.cid_of_sock(s.owner, s) is not None]
@@ -581,7 +615,8 @@ FLOORS = ["tick", "accept", "connected", "connected.sendfail", "deliver.data", "
           "guard.stale-replaced", "guard.unhashable-raise", "guard.utility", "guard.readonly-handshake",
           "guard.deliver", "guard.send.disconnects", "guard.outgoing-connected", "guard.drop.reports-disconnect",
           "guard.connerr.after-disconnect-state=0", "guard.connerr.after-disconnect-state=1",
-          "guard.recv.after-disconnect-state=1", "guard.fd-reuse.stale-disconnect", "heal"]
+          "guard.recv.after-disconnect-state=1", "guard.fd-reuse.stale-disconnect", "deliver.fragment",
+          "deliver.continues-partial-frame", "send.big", "send.from_state=1", "heal"]
 
 
 def run(ctx):
